@@ -144,7 +144,11 @@ package logx
 //@   prop C19
 //@   opaque Println
 //@   requires l != nil
-//@   ensures [accepted-whole] result1 == nil ==> calls(on("send", l.channel)) == 1 && arg(on("send", l.channel), 0) == data && result0 == len(data)
+// what is queued for the worker is a private copy of the record: io.Writer forbids keeping the caller's slice, and
+// the package's own writers reuse their buffer (fmt's pooled printer, the JSON buffer) as soon as Write returns
+//@   replay logx_write_retains
+//@   let queued = arg(on("send", l.channel), 0)
+//@   ensures [accepted-whole-as-a-private-copy] result1 == nil ==> calls(on("send", l.channel)) == 1 && result0 == len(data) && len(queued) == len(data) && forall(i, 0, len(data), queued[i] == data[i]) && (len(data) > 0 ==> fresh(queued))
 //@   ensures [closed-refused] result1 != nil ==> result1 == ErrLogFileClosed && result0 == 0 && calls(on("send", l.channel)) == 0 && calls(on("recv", l.done)) == 1
 // The worker: every record received is written exactly once, in arrival order (one goroutine, one at a time), and
 // the goroutine ends only when `done` is closed; it is registered with the wait group before it starts and signs
